@@ -200,6 +200,56 @@ func init() {
 
 		"crypto/sha256.New": func(c *Ctx, a []Value) Value { return Iface{T: hostObjType, V: &HostHash{}} },
 	}
+	// pure string helpers on concrete arguments go to the real implementation (symbolic arguments: unsupported)
+	conc2 := func(f func(a, b string) Value) intrinsic {
+		return func(c *Ctx, a []Value) Value { return f(strArg(a[0]).MustGo(), strArg(a[1]).MustGo()) }
+	}
+	intrinsics["strings.Index"] = conc2(func(a, b string) Value { return int64(strings.Index(a, b)) })
+	intrinsics["strings.LastIndex"] = conc2(func(a, b string) Value { return int64(strings.LastIndex(a, b)) })
+	intrinsics["strings.Count"] = conc2(func(a, b string) Value { return int64(strings.Count(a, b)) })
+	intrinsics["strings.EqualFold"] = conc2(func(a, b string) Value { return strings.EqualFold(a, b) })
+	intrinsics["strings.ContainsAny"] = conc2(func(a, b string) Value { return strings.ContainsAny(a, b) })
+	intrinsics["strings.IndexAny"] = conc2(func(a, b string) Value { return int64(strings.IndexAny(a, b)) })
+	intrinsics["strings.Fields"] = func(c *Ctx, a []Value) Value {
+		s := strArg(a[0])
+		if g, ok := s.Go(); ok {
+			var out []Str
+			for _, f := range strings.Fields(g) {
+				out = append(out, Conc(f))
+			}
+			return mkStrSlice(out)
+		}
+		// symbolic: split at blanks decided per byte
+		var out []Str
+		var cur []Seg
+		for _, u := range s.Units() {
+			if c.Branch(c.unitIn(u, " \t\n\v\f\r")) {
+				if len(cur) > 0 {
+					out = append(out, unitsStr(cur))
+					cur = nil
+				}
+				continue
+			}
+			cur = append(cur, u)
+		}
+		if len(cur) > 0 {
+			out = append(out, unitsStr(cur))
+		}
+		return mkStrSlice(out)
+	}
+	intrinsics["strings.IndexByte"] = func(c *Ctx, a []Value) Value {
+		return int64(strings.IndexByte(strArg(a[0]).MustGo(), byte(a[1].(int64))))
+	}
+	intrinsics["strings.Title"] = func(c *Ctx, a []Value) Value { return Conc(strings.Title(strArg(a[0]).MustGo())) }
+	intrinsics["strconv.FormatBool"] = func(c *Ctx, a []Value) Value {
+		if b, ok := a[0].(bool); ok {
+			return Conc(strconv.FormatBool(b))
+		}
+		if c.Branch(a[0].(*sym.Term)) {
+			return Conc("true")
+		}
+		return Conc("false")
+	}
 	// generic instances are named with their type arguments; register the common spellings
 	for _, n := range []string{
 		"maps.Clone[map[string]github.com/monstermichl/typeshell/parser.Variable string github.com/monstermichl/typeshell/parser.Variable]",
